@@ -57,13 +57,20 @@ fn case(k: usize, n: usize) -> Result<(), String> {
     ensure!((p1 - seq).abs() <= 4.0 * (n.max(1) as f64) * f64::EPSILON * mag, "workers={} length={}: dot_f64 = {} differs from dot = {} by more than reassociation allows", k, n, p1, seq);
     ensure!(p1.to_bits() == p2.to_bits(), "workers={} length={}: repeated calls differ: {} vs {}", k, n, p1, p2);
     ensure!(p1.to_bits() == p3.to_bits(), "workers={} length={}: a.b != b.a: {} vs {}", k, n, p1, p3);
+    // call sequences on one thread: after a long call, shorter ones (fewer elements than workers, none at all) must not see stale state
+    for m in [0usize, k.saturating_sub(1).min(n), 1usize.min(n)] {
+        let (a, b) = integer_data(m);
+        let exact: i128 = (0..m).map(|i| (a[i] as i128) * (b[i] as i128)).sum();
+        let got = Vector::create(a).dot_f64(&Vector::create(b));
+        ensure!(got == exact as f64, "workers={}: a call of length {} right after one of length {} returned {} instead of {}", k, m, n, got, exact);
+    }
     Ok(())
 }
 
 fn main() {
     let ctx = Ctx::from_args("C16");
     ctx.level("model_checking");
-    ctx.rule("Configuration sweep (guard off, real OS threads): every worker count k = 1..min(16, CPUs available) - set through the CPU affinity of the calling thread and confirmed by num_cpus::get() == k - x every length 0..=200: integer-valued data must be bit-identical to the sequential dot and to an exact i128 dot product; reassociation-sensitive data must stay within 4 n eps sum|a_i b_i| and be bit-identical over repeated calls. Non-trivial: lengths below, equal to, above and not divisible by the worker count with k >= 2.");
+    ctx.rule("Configuration sweep (guard off, real OS threads): every worker count k = 1..min(16, CPUs available) - set through the CPU affinity of the calling thread and confirmed by num_cpus::get() == k - x every length 0..=200: integer-valued data must be bit-identical to the sequential dot and to an exact i128 dot product; reassociation-sensitive data must stay within 4 n eps sum|a_i b_i| and be bit-identical over repeated calls; each case ends with a sequence of shorter calls (length 0, < workers, 1) on the same thread, which must be exact (no state carried between calls). Non-trivial: lengths below, equal to, above and not divisible by the worker count with k >= 2.");
     ctx.assume("the sweep runs free (uncontrolled OS scheduling): it decides the configuration/length quantifiers; scheduling independence is decided by the shuttle exploration");
     let cpus = allowed_cpus();
     let kmax = cpus.len().min(16);
@@ -77,8 +84,8 @@ fn main() {
         |idx, acc| {
             let k = 1 + (idx / nlen) as usize;
             let n = (idx % nlen) as usize;
-            if quick && n > 64 && ![1usize, 2, 3, 7, 16].contains(&k) {
-                acc.hit("(quick tier: lengths above 64 only for worker counts 1,2,3,7,16)");
+            if quick && n > 40 && ![1usize, 2, 3, 7, 16].contains(&k) {
+                acc.hit("(quick tier: lengths above 40 only for worker counts 1,2,3,7,16)");
                 return;
             }
             if !pin(&pick(&cpus, k)) {
